@@ -220,6 +220,9 @@ func (r *renderer) typeSpec(t *TypeDecl, prefix string) {
 		t.Start = r.emit("%s%s struct {%s%s", prefix, t.Name, r.trail(&t.Node), tag(t.ID))
 		r.indent++
 		for _, f := range t.Fields {
+			if f.JoinPrev {
+				continue // declared together with the field before it
+			}
 			for _, d := range f.Doc {
 				r.emit("%s", d)
 			}
@@ -232,6 +235,8 @@ func (r *renderer) typeSpec(t *TypeDecl, prefix string) {
 			}
 			if f.Embedded {
 				r.emit("%s%s", ty, tag(f.ID))
+			} else if len(f.With) > 0 {
+				r.emit("%s, %s %s%s", f.Name, strings.Join(f.With, ", "), ty, tag(f.ID))
 			} else {
 				r.emit("%s %s%s", f.Name, ty, tag(f.ID))
 			}
